@@ -151,7 +151,7 @@ class Scenario:
                 fam = 'smallint'
             pts[:, 1] += 1.0
         else:
-            fam = pick(rng, ['mrc', 'noise', 'inv', 'expdecay', 'quad', 'trace', 'noise'])
+            fam = pick(rng, ['mrc', 'noise', 'inv', 'expdecay', 'quad', 'trace', 'noise', 'sigmoid', 'sigmoid', 'sigmoid'])
             pts, meta = gen.curve(rng, nmax=60, nmin=12, family=fam)
             if np.ptp(pts[:, 1]) == 0 or len(pts) < 12 or np.max(pts[:, 1]) > 1e12:
                 pts, meta = gen.curve(rng, nmax=60, nmin=12, family='noise')
@@ -606,7 +606,13 @@ def run_entry(ctx, mods, name, fn, scen, layouts):
     FIRST[name] = (st1, r1)
     agree = {}
     for lay in layouts:
-        stl, rl = call(ctx, name, fn, scen.view(lay))
+        vl = scen.view(lay)
+        before_l = {k: argdigest(getattr(vl, k)) for k in PURE_FIELDS}
+        stl, rl = call(ctx, name, fn, vl)
+        # purity in every representation: a function that copies C-ordered input may still write into an array that is
+        # already in the layout / dtype it converts to
+        changed_l = [k for k in PURE_FIELDS if before_l[k] != argdigest(getattr(vl, k))]
+        ctx.check(not changed_l, 'purity', f'purity:{short}:{lay}', f'{name} modified its argument(s) {changed_l} in the {lay} representation')
         # mechanism classifier: values of magnitude ~1e10, only the int64 representation deviates, the float64 ones agree
         overflow_class = scen.large and lay == 'i64' and all(agree.values())
         kname = f'representation:int64-overflow:{short}' if overflow_class else f'representation:{short}:{lay}'
